@@ -116,9 +116,11 @@ Outcome run_case(const Case &c) {
       size_t us = model.size();
       size_t len = o.mode == 1 ? (us ? us - 1 : 0) : o.mode == 2 ? us : o.mode == 3 ? us + 1 : o.mode == 4 ? S + 1 : o.mode == 6 ? 0 : (size_t)(o.n < 0 ? 0 : o.n);
       unsigned char *buf = (unsigned char *)malloc(len ? len : 1);
-      memset(buf, 0, len ? len : 1);
+      memset(buf, 0xEE, len ? len : 1);
       pint r = p_shm_buffer_read(H(o.h), buf, len, NULL);
       size_t want = std::min(len, us);
+      // "a read removes and returns the oldest min(len, used) bytes": the caller's storage beyond that count is not the read's to write
+      if (r >= 0 && (size_t)r <= len) for (size_t i = (size_t)r; i < len; i++) if (buf[i] != 0xEE) { fail("read-beyond-count", "read of " + std::to_string(len) + " with " + std::to_string(us) + " used returned " + std::to_string(r) + " but overwrote the caller's storage at offset " + std::to_string(i) + ", beyond the bytes it reported"); break; }
       if (len == 0) { if (r != 0 && r != -1) fail("read-zero", "zero-length read returned " + std::to_string(r)); }
       else if (r != (pint)want) fail("read-count", "read of " + std::to_string(len) + " with " + std::to_string(us) + " used returned " + std::to_string(r) + ", expected " + std::to_string(want));
       else {
@@ -141,8 +143,9 @@ Outcome run_case(const Case &c) {
     for (PShmBuffer *b : hs) { spaces(b, "final query through every handle"); if (!out.verdict.empty()) break; }
   }
   if (out.verdict.empty() && !model.empty()) {
-    vector<unsigned char> buf(model.size() + 4);
+    vector<unsigned char> buf(model.size() + 4, 0xEE);
     pint r = p_shm_buffer_read(hs.back(), buf.data(), buf.size(), NULL);
+    for (size_t i = model.size(); i < buf.size(); i++) if (buf[i] != 0xEE) { fail("read-beyond-count", "final drain of " + std::to_string(model.size()) + " bytes overwrote the caller's storage beyond the bytes it reported"); break; }
     if (r != (pint)model.size()) fail("read-count", "final drain returned " + std::to_string(r) + " bytes, model holds " + std::to_string(model.size()));
     else for (size_t i = 0; i < model.size(); i++) if (buf[i] != model[i]) { fail("read-data", "final drain returned wrong bytes"); break; }
   }
